@@ -245,8 +245,16 @@ class Walker:
         self.api_memo = set()
         self.diverged = set()            # (src, label idx) on which the real backend left the model's path
         g = graph
+        self.start = g.init
         # edges this backend may take
         self.allowed = [[(li, d) for (li, d) in es if self.edge_ok(g.labels[li])] for es in g.edges]
+        if kind != "disk":
+            # directories mean nothing to these backends: walk the quotient graph whose nodes are the
+            # representatives of equal (loose, packed) placements
+            canon = [g.lookup(g.loose[i], g.packed[i]) for i in range(len(g.edges))]
+            self.allowed = [sorted({(li, canon[d]) for (li, d) in es}) if canon[i] == i else []
+                            for i, es in enumerate(self.allowed)]
+            self.start = canon[g.init]
         self.succ = [sorted({d for (_, d) in es}) for es in self.allowed]
 
     def edge_ok(self, lab):
@@ -260,15 +268,13 @@ class Walker:
 
     def reachable_targets(self):
         """(src, label idx) of every allowed edge whose source is reachable over allowed edges."""
-        seen, q = {self.g.init}, collections.deque([self.g.init])
+        seen, q = {self.start}, collections.deque([self.start])
         while q:
             x = q.popleft()
             for d in self.succ[x]:
                 if d not in seen:
                     seen.add(d)
                     q.append(d)
-        if self.kind != "disk":     # directories mean nothing there: one representative per placement
-            seen = {s for s in seen if self.g.lookup(self.g.loose[s], self.g.packed[s]) == s}
         return {(s, li) for s in seen for (li, _) in self.allowed[s]}
 
     def new_backend(self):
@@ -292,7 +298,7 @@ class Walker:
             before = len(remaining)
             be = self.new_backend()
             self.behaviours += 1
-            cur, hist = g.init, []
+            cur, hist = self.start, []
             prev_scan = be.scan() if self.kind == "disk" else None
             n = 0
             while n < self.max_len and remaining:
